@@ -53,6 +53,8 @@ def case(draw):
     spec['malformed'] = [[draw(st.integers(0, n_endo_lines)), draw(st.sampled_from(MALFORMED))]
                          for _ in range(draw(st.sampled_from([0, 0, 0, 1, 2])))]
     spec['params_pos'] = draw(st.sampled_from(['top', 'middle', 'bottom', 'after-exo']))
+    spec['bad_param'] = draw(st.sampled_from([None] * 12 + ['MaxTime = ten', 'MaxTime = 3.5', 'Err_Tolerance = tight',
+                                                            'MaxTime = ', 'Err_Tolerance = 1e-6x']))
     spec['comment_sp'] = draw(st.sampled_from(['  # ', '#', ' #', '\t# ']))
     spec['blank_lines'] = draw(st.booleans())
     spec['indent'] = draw(st.sampled_from(['', '   ', '\t']))
@@ -134,6 +136,17 @@ def run(spec):
     from sfc_models.equation_parser import EquationParser
     text = render(spec)
     p = EquationParser()
+    if spec.get('bad_param') is not None:
+        # a run-parameter line whose value cannot be read: must be reported (exception or message)
+        bad_text = spec['bad_param'] + '\n' + text
+        try:
+            msg = EquationParser().ParseString(bad_text)
+        except Exception:
+            return {'nontrivial': True, 'labels': ['bad-run-parameter:raised']}
+        if spec['bad_param'].split('=')[0].strip() not in msg:
+            raise Violation('C14/bad-run-parameter-silent', 'line %r was accepted without any report (message %r)' %
+                            (spec['bad_param'], msg))
+        return {'nontrivial': True, 'labels': ['bad-run-parameter:message']}
     try:
         msg = p.ParseString(text)
     except Exception as ex:
